@@ -418,6 +418,7 @@ pub fn gen_csg(ch: &mut Chooser, dims: usize, max_vars: usize) -> ShapeGen {
         var_nodes.push(dag.push(Ex::V(i)));
         var_values.push(ch.float_sym("csg_varval", 0.5, 10));
     }
+    let nprims_at = ch.mark();
     let nprims = 1 + ch.choose("csg_nprims", 6) as usize;
     let mut b = B {
         d: &mut dag,
@@ -427,6 +428,7 @@ pub fn gen_csg(ch: &mut Chooser, dims: usize, max_vars: usize) -> ShapeGen {
     };
     let mut acc: Option<usize> = None;
     for _ in 0..nprims {
+        ch.span_begin();
         let c = [
             ch.float_sym("csg_c", 0.8, 16),
             ch.float_sym("csg_c", 0.8, 16),
@@ -498,6 +500,7 @@ pub fn gen_csg(ch: &mut Chooser, dims: usize, max_vars: usize) -> ShapeGen {
                 _ => b.d.b(Bin::Min, p, q),
             },
         });
+        ch.span_end(nprims_at);
     }
     let mut root = acc.unwrap();
     // make sure every declared variable is used by the shape (a shape that
@@ -552,10 +555,12 @@ pub fn gen_func(ch: &mut Chooser, max_ops: usize) -> FuncGen {
     for i in 0..nvars {
         pool.push(dag.push(Ex::V(i)));
     }
+    let nops_at = ch.mark();
     let nops = 2 + ch.choose("fn_nops", max_ops as u32 - 1) as usize;
     // choice density: how often an op is min/max/and/or
     let density = ch.choose("fn_density", 4); // 0: low .. 3: very high
     for _ in 0..nops {
+        ch.span_begin();
         let pick = |ch: &mut Chooser, pool: &Vec<usize>| -> usize {
             // bias towards recent nodes so depth grows
             let n = pool.len() as u32;
@@ -646,6 +651,7 @@ pub fn gen_func(ch: &mut Chooser, max_ops: usize) -> FuncGen {
             }
         };
         pool.push(node);
+        ch.span_end(nops_at);
     }
     // outputs: 1..=4, last node always included; sometimes an input or a
     // constant is an output too
